@@ -2,6 +2,9 @@
 (* Trace validation of client.Runtime.CreateHttpRequest against C10.        *)
 (* case  : a history of operations built on ONE Runtime (reset line: base   *)
 (*         path, host, runtime schemes, steps = the operations in order)     *)
+(*         (each operation is built through every entry point of its `entries`: *)
+(*         CreateHttpRequest, Submit, WithOpenTelemetry().Submit,             *)
+(*         WithOpenTracing().Submit - all must yield the same URL)            *)
 (* event : url {step, obs: the distinct URLs observed over all orders in which    *)
 (*         the path parameters were set x repetitions (Go randomises the    *)
 (*         iteration of the value map), each with its count}                *)
